@@ -263,6 +263,10 @@ func initTopicP2P(t *Topic, sreg *ClientComMessage) error {
 		}
 		t.lastID = stopic.SeqId
 		t.delID = stopic.DelId
+		if stopic.State == types.StateSuspended {
+			// The account of one of the participants is suspended: the topic stays read-only across a reload.
+			t.markReadOnly(true)
+		}
 	}
 
 	// t.owner is blank for p2p topics
@@ -663,6 +667,10 @@ func initTopicGrp(t *Topic) error {
 	}
 	t.lastID = stopic.SeqId
 	t.delID = stopic.DelId
+	if stopic.State == types.StateSuspended {
+		// The owner's account is suspended: the topic stays read-only across a reload.
+		t.markReadOnly(true)
+	}
 
 	// Initialize channel for receiving session online updates.
 	t.supd = make(chan *sessionUpdate, 32)
